@@ -51,6 +51,7 @@ class Contract(object):
         self.env_ = {}               # extra names visible to the clauses (spec functions)
         self.result_names_ = None
         self.event_clauses_ = []     # [(name, python callable(trace_events, ctx) -> z3 Bool)]
+        self.path_hooks_ = []        # python callables run for EVERY path (also paths ended inside loops)
         self.post_hooks_ = []        # python callables(run_ctx) adding obligations at exit
         self.setup_ = None           # python callable(interp, path) -> dict of arg values (custom symbolic inputs)
         self.assumes_ = []           # [(name, expr)] assumptions (listed in evidence, never silently)
@@ -165,6 +166,10 @@ class Contract(object):
 
     def post(self, fn):
         self.post_hooks_.append(fn)
+        return self
+
+    def on_path(self, fn):
+        self.path_hooks_.append(fn)
         return self
 
     def module_globals(self, **kw):
